@@ -221,6 +221,7 @@ func (tk *tracker) stmt(s ast.Stmt, top bool) []probe {
 		tk.stmt(x.Stmt, false)
 	case *ast.ExprStmt:
 		add(tk.reads(x.X))
+		tk.funcLits(x) // func() {...}() and calls that take a function literal
 	case *ast.SendStmt:
 		add(tk.reads(x.Chan))
 		add(tk.reads(x.Value))
@@ -261,6 +262,7 @@ func (tk *tracker) stmt(s ast.Stmt, top bool) []probe {
 		} else {
 			add(tk.stmtNoBlocks(x.Init))
 		}
+		tk.funcLits(x.Cond)
 		tk.block(x.Body)
 		switch e := x.Else.(type) {
 		case *ast.BlockStmt:
